@@ -521,7 +521,7 @@ const (
 
 var c28ops = []string{"drop", "dup", "add-foreign", "add-unchanged", "alter-leaf", "alter-inner", "replace-foreign",
 	"wrong-hash", "wrong-block", "block-count", "empty", "other-prev", "fork-verbatim", "fork-relabel-block",
-	"fork-relabel-both", "reorder", "dead-nodes", "swap-for-unchanged"}
+	"fork-relabel-both", "reorder", "dead-nodes", "swap-for-unchanged", "drop-and-dup"}
 
 func TestC28_SyncedStateChanges(t *testing.T) {
 	c28setup()
@@ -982,14 +982,45 @@ func TestC28_SyncedStateChanges(t *testing.T) {
 				i := rapid.SampledFrom(idx).Draw(t, "i")
 				variant = "withheld-" + c28nodeKind(h.Nodes[i])
 				u := rapid.SampledFrom(linkedUnchanged).Draw(t, "unchangedNode").CloneNode()
-				if rapid.Bool().Draw(t, "restampOrigin") {
+				switch rapid.SampledFrom([]string{"as-stored", "origin", "version", "origin", "both"}).Draw(t, "restamp") {
+				case "origin":
 					// the sender stamps the old node with this block's round as origin (the origin is part
 					// of what a node's hash covers, so the node then no longer is the one its parent links to)
 					u.SetOrigin(util.Sequence(last.Round))
 					variant += "-origin-restamped"
 					op = "swap-for-unchanged-restamped"
+				case "version":
+					// the version stamp travels on the wire but is not covered by the node's hash
+					u.SetVersion(util.Sequence(last.Round))
+					variant += "-version-restamped"
+				case "both":
+					u.SetOrigin(util.Sequence(last.Round))
+					u.SetVersion(util.Sequence(last.Round))
+					variant += "-origin-and-version-restamped"
+					op = "swap-for-unchanged-restamped"
 				}
 				h.Nodes[i] = u
+			case "drop-and-dup":
+				// one changed node is withheld and another changed node is sent twice: count, declared root and block
+				// hash match and every node sent was created in this block
+				expect = c28Either
+				var idx []int
+				for i, nd := range h.Nodes {
+					if !bytes.Equal(nd.GetHashBytes(), h.Hash) {
+						idx = append(idx, i)
+					}
+				}
+				if len(idx) == 0 || len(h.Nodes) < 2 {
+					op = "wrong-hash"
+					break
+				}
+				i := rapid.SampledFrom(idx).Draw(t, "i")
+				j := rapid.IntRange(0, len(h.Nodes)-2).Draw(t, "j")
+				if j >= i {
+					j++
+				}
+				variant = "withheld-" + c28nodeKind(h.Nodes[i]) + "-repeated-" + c28nodeKind(h.Nodes[j])
+				h.Nodes[i] = h.Nodes[j]
 			case "alter-leaf", "alter-inner", "replace-foreign":
 				expect = c28Either // count, declared root and block hash still match
 				var idx []int
